@@ -1,7 +1,8 @@
 (** * C05 — Existence, metadata, listings and traversal agree (pinned statements). *)
 From stdpp Require Import gmap list.
 From Coq Require Import NArith ZArith.
-From VFS Require Import Core.Types Core.Calls Base.MemFS Proofs.MemProofs Proofs.MemCalls.
+From VFS Require Import Core.Types Core.Prog Core.Calls Base.MemFS Base.Handles Base.Store Layer.VfsPath
+  Proofs.MemProofs Proofs.MemCalls Proofs.MemPublic Proofs.WalkProofs.
 
 Notation mstate := (gmap (list (list N)) memfile).
 
@@ -41,10 +42,31 @@ Theorem C05_open_file : forall (s : mstate) p,
   | Some f => match f_type f with Dir => fail EOther | File => Ok (f_content f) end
   end.
 Proof.
-  intros s p. rewrite ms_open_file. cbn [msec_sem]. unfold mem_update.
-  destruct (s !! p) as [f|] eqn:E; cbn [fst snd].
-  - rewrite lookup_insert. cbn. destruct (f_type f); reflexivity.
-  - now rewrite E.
+  intros s p. rewrite ms_open_file. cbn [msec_sem].
+  destruct (s !! p) as [f|] eqn:E; [destruct (f_type f)|]; reflexivity.
+Qed.
+
+(** walk_dir yields every descendant exactly once and every directory before anything inside it: on a
+    well-formed MemoryFS of ANY size and depth, started on any directory [p0], the walk (given fuel
+    for one step per descendant) ends with a list [L] of paths that is a permutation of the set of
+    entries strictly below [p0] - so each is delivered exactly once and nothing else is - in which
+    the parent of every item is [p0] or was delivered earlier; and the walk changes nothing *)
+Theorem C05_walk_dir : forall hs lg ft (s : mstate) p0 fuel,
+  wf s -> is_dir s p0 -> length (desc s p0) < fuel ->
+  exists L,
+    run bhandler (let* r := vp_walk_dir mv p0 in
+                  match r with
+                  | Ok w => walk_collect mv fuel w []
+                  | Err e => Ret (Err e)
+                  | Panic => Ret Panic
+                  end) (mstore s hs lg ft) = (mstore s hs lg ft, Ok (map Ok L)) /\
+    L ≡ₚ desc s p0 /\ pfirst p0 [] L.
+Proof. intros hs lg ft s p0 fuel Hwf. exact (walk_dir_mem hs lg ft s Hwf p0 fuel). Qed.
+
+Theorem C05_walk_exactly_the_descendants : forall (s : mstate) p0 L,
+  L ≡ₚ desc s p0 -> NoDup L /\ forall k, k ∈ L <-> is_Some (s !! k) /\ below p0 k.
+Proof.
+  intros s p0 L HL. split; [rewrite HL; apply NoDup_desc|]. intros k. rewrite HL. apply elem_of_desc.
 Qed.
 
 Example C05_example :
@@ -59,3 +81,5 @@ Print Assumptions C05_metadata.
 Print Assumptions C05_read_dir.
 Print Assumptions C05_open_file.
 Print Assumptions C05_example.
+Print Assumptions C05_walk_dir.
+Print Assumptions C05_walk_exactly_the_descendants.
